@@ -1,4 +1,5 @@
 CONSTANT Bug = {}
 SPECIFICATION Spec
 INVARIANT Report
+CONSTRAINT PruneAtReset
 CHECK_DEADLOCK FALSE
